@@ -23,6 +23,7 @@ from cutadapt.files import (
 from cutadapt.pipeline import Pipeline
 from cutadapt.report import Statistics
 from cutadapt.utils import Progress
+from cutadapt import _verif
 
 logger = logging.getLogger()
 
@@ -99,11 +100,17 @@ class ReaderProcess(mpctx_Process):
                 except Exception as e:
                     self._file_format_connection.send(-2)
                     self._file_format_connection.send((e, traceback.format_exc()))
+                    if _verif.ON:
+                        _verif.event("R", "r_fmt_fail")
                     raise
                 self._file_format_connection.send(file_format)
+                if _verif.ON:
+                    _verif.event("R", "r_fmt")
                 for index, chunks in enumerate(self._read_chunks(*files)):
                     self.send_to_worker(index, *chunks)
             self.shutdown()
+            if _verif.ON:
+                _verif.event("R", "r_done")
         except Exception as e:
             # TODO better send this to a common "something went wrong" Queue
             # This code is rarely executed because there is little that can go wrong
@@ -112,6 +119,8 @@ class ReaderProcess(mpctx_Process):
             for connection in self.connections:
                 connection.send(-2)
                 connection.send((e, traceback.format_exc()))
+            if _verif.ON:
+                _verif.event("R", "r_fail")
 
     def _read_chunks(self, *files) -> Iterator[Tuple[memoryview, ...]]:
         if len(files) == 1:
@@ -132,12 +141,16 @@ class ReaderProcess(mpctx_Process):
         connection.send_bytes(chunk1)
         if chunk2 is not None:
             connection.send_bytes(chunk2)
+        if _verif.ON:
+            _verif.event("R", "r_send", chunk=chunk_index, worker=worker_index)
 
     def shutdown(self):
         # Send poison pills to all workers
         for _ in range(len(self.connections)):
             worker_index = self.queue.get()
             self.connections[worker_index].send(-1)
+            if _verif.ON:
+                _verif.event("R", "r_pill", worker=worker_index)
 
 
 class WorkerProcess(mpctx_Process):
@@ -177,6 +190,8 @@ class WorkerProcess(mpctx_Process):
             while True:
                 # Notify reader that we need data
                 self._need_work_queue.put(self._id)
+                if _verif.ON:
+                    _verif.event(f"W{self._id}", "w_ask", worker=self._id)
                 chunk_index = self._read_pipe.recv()
                 if chunk_index == -1:
                     # reader is done
@@ -199,6 +214,10 @@ class WorkerProcess(mpctx_Process):
                 (n, bp1, bp2) = self._pipeline.process_reads(infiles)
                 stats += Statistics().collect(n, bp1, bp2, [], [])
                 self._send_outfiles(chunk_index, n)
+                if _verif.ON:
+                    _verif.event(
+                        f"W{self._id}", "w_res", worker=self._id, chunk=chunk_index
+                    )
 
             stats += Statistics().collect(
                 0,
@@ -209,9 +228,13 @@ class WorkerProcess(mpctx_Process):
             )
             self._write_pipe.send(-1)
             self._write_pipe.send(stats)
+            if _verif.ON:
+                _verif.event(f"W{self._id}", "w_stats", worker=self._id, reads=stats.n)
         except Exception as e:
             self._write_pipe.send(-2)
             self._write_pipe.send((e, traceback.format_exc()))
+            if _verif.ON:
+                _verif.event(f"W{self._id}", "w_exc", worker=self._id)
 
     def _send_outfiles(self, chunk_index: int, n_reads: int):
         self._write_pipe.send(chunk_index)
@@ -329,6 +352,8 @@ class ParallelPipelineRunner(PipelineRunner):
         self._input_file_format: FileFormat = self._try_receive(
             file_format_connection_r
         )
+        if _verif.ON:
+            _verif.event("M", "m_fmt")
         self._file_format_string = self._input_file_format.name.lower()
         if self._file_format_string == "bam":
             # Individual BAM record chunks will have no header
@@ -359,12 +384,21 @@ class ParallelPipelineRunner(PipelineRunner):
 
     def run(self, pipeline, progress, outfiles: OutputFiles) -> Statistics:
         workers, connections = self._start_workers(pipeline, outfiles.proxy_files())
+        if _verif.ON:
+            _verif_connections = list(connections)
+            _verif.event("M", "m_start", workers=len(workers))
         chunk_writers = []
         for f in outfiles.binary_files():
             chunk_writers.append(OrderedChunkWriter(f))
         stats = Statistics()
         while connections:
             ready_connections: List[Any] = multiprocessing.connection.wait(connections)
+            if _verif.ON:
+                _verif.event(
+                    "M",
+                    "m_wait",
+                    ready=[_verif_connections.index(c) for c in ready_connections],
+                )
             for connection in ready_connections:
                 chunk_index: int = self._try_receive(connection)
                 if chunk_index == -1:
@@ -372,6 +406,13 @@ class ParallelPipelineRunner(PipelineRunner):
                     cur_stats = self._try_receive(connection)
                     stats += cur_stats
                     connections.remove(connection)
+                    if _verif.ON:
+                        _verif.event(
+                            "M",
+                            "m_stats",
+                            worker=_verif_connections.index(connection),
+                            reads=cur_stats.n,
+                        )
                     continue
 
                 number_of_reads: int = self._try_receive(connection)
@@ -379,11 +420,23 @@ class ParallelPipelineRunner(PipelineRunner):
                 for writer in chunk_writers:
                     data = connection.recv_bytes()
                     writer.write(data, chunk_index)
+                if _verif.ON:
+                    _verif.event(
+                        "M",
+                        "m_res",
+                        worker=_verif_connections.index(connection),
+                        chunk=chunk_index,
+                        reads=number_of_reads,
+                        cur=[w._current_index for w in chunk_writers],
+                        pending=[sorted(w._chunks) for w in chunk_writers],
+                    )
         for writer in chunk_writers:
             assert writer.wrote_everything()
         for w in workers:
             w.join()
         self._reader_process.join()
+        if _verif.ON:
+            _verif.event("M", "m_done")
         progress.close()
         return stats
 
@@ -400,6 +453,8 @@ class ParallelPipelineRunner(PipelineRunner):
             # The other end does not send an actual traceback object because these are
             # not picklable, but a string representation.
             logger.debug("%s", tb_str)
+            if _verif.ON:
+                _verif.event("M", "m_exc")
             for child in multiprocessing.active_children():
                 child.terminate()
             raise e
